@@ -4,6 +4,7 @@ COMMON_TRUSTED_BASE = [
     "Coq 8.16.1 kernel and its vm_compute virtual machine (finite sweeps, witnesses); native_compute is not used",
     "no axioms declared; standard library only; Print Assumptions output of every property theorem is recorded in this file",
     "tools/gen_tables.py + tools/rustlex.py + tools/tablib.py (translator: Rust constants/tables -> coq/Gen/Tables.v, fails closed on unknown shapes)",
+    "for C13, C14, C18 the thorough tier re-evaluates the driver's requests inside Coq (vm_compute, tools/vmroute.py) and compares with the extracted driver, so extraction is cross-checked there; elsewhere it is trusted",
     "Coq extraction with ExtrOcamlBasic only (no Extract Constant / Extract Inductive beyond bool, option, list, prod, unit, sumbool), OCaml 4.13.1, ocaml/proto.ml and the per-property driver",
     "the correspondence check (harness/): differential testing of the extracted model against the crates built from /repo's working tree; its strength is that of the generators whose distribution is recorded here",
     "rustc / cargo code generation for the harness and the crates",
